@@ -85,6 +85,7 @@ def hmac256(key, msg):
 
 
 class AbsGenerator(Builder):
+    no_pickle = True
     """an abstract generator object: an instance of the real Generator class whose group operations are the
     uninterpreted functions of pyvc.group; its order n and field prime p are symbolic (n, p >= 3, odd) unless given"""
 
